@@ -82,7 +82,11 @@ ReplyRR(t) == <<
   (* 27 *) RRraw(o12, TYPE_A, CLASS_IN, 42, RepSeq(<<10, 8, 8, 2>>, 100)),            \* 400 bytes
   (* 28 *) RRraw(o12, TYPE_AAAA, CLASS_IN, 43, V61 \o V62),                           \* 32 bytes
   (* 29 *) RRraw(o12, TYPE_AAAA, CLASS_IN, 44, RepSeq(V62, 17)),                      \* 272 bytes
-  (* 30 *) RRraw(o12, TYPE_A, CLASS_IN, 45, RepSeq(<<10, 9, 9, 3>>, 16))              \* 64 bytes
+  (* 30 *) RRraw(o12, TYPE_A, CLASS_IN, 45, RepSeq(<<10, 9, 9, 3>>, 16)),             \* 64 bytes
+  (* records that do not lean on the question section (usable right after the header when QDCOUNT = 0) *)
+  (* 31 *) RRname(Labels(QNameOf(t)), TYPE_PTR, CLASS_IN, 46, <<L(host), L(ex), Z>>),
+  (* 32 *) RRraw(Labels(QNameOf(t)), TYPE_AAAA, CLASS_IN, 47, V61),
+  (* 33 *) RRraw(<<L(<<101, 118, 105, 108>>), L(ex), Z>>, TYPE_A, CLASS_IN, 48, <<6, 6, 6, 6>>)      \* evil.ex A 6.6.6.6
 >>
 ReplyNs == << <<>>, <<RRraw(o12, TYPE_SOA, CLASS_IN, 90, SoaData)>>, <<RRraw(o12, TYPE_SOA, CLASS_IN, 90, <<1, 2>>)>> >>
 ReplyAr == << <<>>, <<RRraw(<<Z>>, TYPE_OPT, 1232, 0, <<>>)>> >>
